@@ -30,7 +30,7 @@ ASSUMPTIONS = ['data sets compared by their implicit-VR-LE re-encoding (pydicom 
 
 def cases(tier, seed):
     rnd = random.Random('c16/%d' % seed)
-    n = 4000 if tier == 'quick' else 120000
+    n = 2500 if tier == 'quick' else 120000
     for i in range(n):
         yield dict(n=rnd.choice([0, 1, 2, 3, 4, 5, 8]), ts=rnd.choice(sorted(TSS)),
                    smax=rnd.choice([40, 64, 128, 16384]), cmax=rnd.choice([40, 128, 16384]),
@@ -38,7 +38,24 @@ def cases(tier, seed):
                    delay=rnd.choice([0, 0, 0.02, 0.3]),
                    final=rnd.choice(['real', 'real', 'real', 'failure', 'cancel', 'warning']),
                    sched=rnd.choice(['uniform', 'user-ahead', 'stall']), align=rnd.random() < 0.35,
+                   others=rnd.choice([0, 0, 1, 2]), fine=rnd.random() < 0.4,
                    seed=seed * 100003 + i)
+
+
+_cases_base = cases
+
+
+def cases(tier, seed):   # noqa: F811
+    for c in _cases_base(tier, seed):
+        yield c
+    # several query users at once on one server AE, with line-level pre-emption concentrated
+    # in the data-set encode/decode helpers every association goes through
+    rnd = random.Random('c16h/%d' % seed)
+    for i in range(300 if tier == 'quick' else 12000):
+        yield dict(n=rnd.choice([2, 3, 5]), ts=rnd.choice(sorted(TSS)), smax=16384, cmax=16384,
+                   variant=rnd.choice(['patient', 'study', 'mwl']), delay=0, final='real',
+                   sched='uniform', align=False, others=rnd.choice([2, 3]), fine=True, hot=True,
+                   seed=seed * 100019 + i)
 
 
 def _ds(rnd, k):
@@ -90,6 +107,17 @@ def run_case(case):
         if case['final'] == 'real':
             class Srv(applicationentity.AE):
                 def on_receive_find(self, context, ds):
+                    if str(ds.PatientName).startswith('OTHER'):
+                        k = int(str(ds.PatientID))
+                        tag = str(ds.PatientName)
+
+                        def ogen():
+                            for j in range(k):
+                                d = pydicom.Dataset()
+                                d.PatientName = '%s/%d' % (tag, j)
+                                d.PatientID = 'o' * (j * 7)
+                                yield d, 0xFF00
+                        return ogen()
                     seen_queries.append(enc(ds, rc.IMPLICIT_LE))
 
                     def gen():
@@ -143,6 +171,40 @@ def run_case(case):
                 out['exc'] = e
                 out['tb'] = traceback.format_exc()
         ut = world.spawn(user, 'user')
+        others = {}
+        n_others = case.get('others', 0) if case['final'] == 'real' else 0
+
+        def other(i):
+            # further query users on the same server AE at the same time: their provider
+            # loops encode and send concurrently with ours
+            try:
+                oc = world.make_ae(applicationentity.ClientAE, 'OTH%d' % i,
+                                   [ts] if variant != 'c_find' else None, 16384)
+                oc.timeout = 300
+                oc.add_scu(sopclass.qr_find_scu)
+                q = pydicom.Dataset()
+                q.PatientName = 'OTHER%d' % i
+                k = 2 + i
+                q.PatientID = str(k)
+                with oc.request_association(remote) as assoc:
+                    res = [(str(d.PatientName) if d is not None else None, int(st))
+                           for d, st in assoc.get_scu(PFIND)(q, 3)]
+                others[i] = (res, [('OTHER%d/%d' % (i, j), 0xFF00) for j in range(k)] + [(None, 0)])
+            except Exception as e:  # pylint: disable=broad-except
+                others[i] = ('exc', repr(e))
+        for i in range(n_others):
+            world.spawn(lambda i=i: other(i), 'other%d' % i)
+        pre = None
+        if case.get('fine'):
+            from .. import preempt
+            if case.get('hot'):
+                pre = preempt.Preempter(world.sim, prob=0.5,
+                                        funcs={'encode', 'decode', 'encode_element'})
+            else:
+                pre = preempt.Preempter(world.sim, prob=0.15,
+                                        funcs=preempt.DEFAULT_FUNCS | {'decode', 'encode_element',
+                                                                       'qr_find_scp', 'qr_find_scu'})
+            pre.install()
         if case['sched'] == 'user-ahead':
             # bias: whenever a user/acceptor thread is runnable, prefer it over provider threads
             sim = world.sim
@@ -168,6 +230,13 @@ def run_case(case):
             world.sim.actors.append(sched.Trigger('stall', lambda: world.sim.steps >= k, do_stall))
         world.run(tmax=2000)
         world.drain(3.0)
+        if pre is not None:
+            pre.uninstall()
+        for i, o in sorted(others.items()):
+            if o[0] == 'exc':
+                v('concurrent-query-user-failed', o[1])
+            elif o[0] != o[1]:
+                v('concurrent-query-results-differ', 'user %d got %r want %r' % (i, o[0], o[1]))
         if 'exc' in out:
             v('query-user-failed exc=%s' % type(out['exc']).__name__, out.get('tb', ''))
         else:
@@ -210,6 +279,11 @@ def run_case(case):
                 'vsecs': sim.now - 1000.0, 'nontrivial': case['n'] >= 2,
                 'sample': {'case': case, 'received': len(got)}}
     finally:
+        try:
+            import threading as _t
+            _t.settrace(None)
+        except Exception:  # pylint: disable=broad-except
+            pass
         world.close()
 
 
